@@ -8,6 +8,7 @@ spec=importlib.util.spec_from_file_location('sens','/verif/tools/sensitivity.py'
 pid=sys.argv[1]
 for diff in m.mutants_for(pid):
     if '/seeded/' not in diff: continue
+    if os.environ.get('SEED_FILTER') and os.environ['SEED_FILTER'] not in diff: continue
     tmp=tempfile.mkdtemp(prefix='vtmut-'); m.make_scratch(tmp)
     subprocess.run(['patch','-p1','-s','-d',tmp,'-i',diff],check=True)
     evp=f'/verif/evidence/{pid}.json'; ev=open(evp).read() if os.path.exists(evp) else None
